@@ -77,13 +77,15 @@ def register(R):
             rc = calls(tr, '_run_callbacks')
             newv = c.newf(field)
             cleared = isinstance(newv, Ref) and c.new.obj(newv).kind == 'list' and len(c.new.obj(newv).items) == 0
+            # (whether the guarded runner is called before or after the lock is dropped is not a listed property: what matters is
+            #  that the list is taken and replaced under the lock -- so that no callback runs twice -- and run exactly once)
             one_cs = (len(le) == 2 and le[0].kind == 'lock' and le[1].kind == 'unlock' and len(rc) == 1
-                      and index_of(tr, le[0]) < index_of(tr, rc[0]) < index_of(tr, le[1]))
+                      and index_of(tr, le[0]) < index_of(tr, rc[0]))
             # the list handed to _run_callbacks is the one found when the lock was acquired
             old = c.engine and c.new.st.ghost.get(('mon_old', c.self.oid))
             same_list = one_cs and old is not None and rc[0].extra['env']['callbacks'] == old.obj(c.self).fields[field]
             return {
-                'run_and_clear_in_one_critical_section': B(one_cs),
+                'list_taken_under_the_lock_and_run_exactly_once_by_the_guarded_runner': B(one_cs),
                 'runs_the_list_found_under_the_lock': B(bool(same_list)),
                 'list_emptied_before_release': B(cleared),
             }
